@@ -90,6 +90,10 @@ def execute(acc, case):
                     mine.append((seq, obj))
                 per_sub.append([m[0] for m in mine])
                 plans.append(mine)
+            # the step budget follows the work the write script imposes (one selector round per accepted fragment)
+            total = sum(len(v) for v in submitted.values())
+            frag = {"fixed1": 1, "fixed7": 7, "fixed50": 50}.get(case["write"], 64)
+            sc.sched.max_steps = max(sc.sched.max_steps, sc.sched.steps + 300_000 + 150 * (total // frag))
             done = []
 
             def submitter(mine, batch):
